@@ -46,7 +46,8 @@ def make_case(rng, kind, opts):
                  allow=tuple(opts.get("allow", "dist,fn,cond,vmap,scan").split(",")),
                  collide=float(opts.get("collide", 0.03)),
                  dkinds=tuple(int(k) for k in opts.get("dkinds", "0,1,2").split(",")))
-    g, tys = pg.top()
+    mix = kind == "hist" and rng.random() < float(opts.get("mixture", 0.0))
+    g, tys = pg.mixture() if mix else pg.top()
     gf = build(g)
     args = pg.args_for(tys)
     iargs = to_impl_args(args)
@@ -113,6 +114,9 @@ def make_case(rng, kind, opts):
         for _ in range(nops):
             r = rng.random()
             new_args = flip_args(rng, cur_args, tys, rng.choice([0.0, 0.3, 0.7]))
+            if mix and rng.random() < 0.8:
+                # fresh arguments: the indicator crosses its threshold in about half of the moves
+                new_args = [rng.randint(-3, 4) for _ in cur_args]
             if not opts.get("flip", True):
                 new_args = [a if t != "B" else c for a, c, t in zip(new_args, cur_args, tys)]
             allowed = opts.get("ops", "upd,regen,back").split(",")
@@ -136,7 +140,12 @@ def make_case(rng, kind, opts):
                 op = {"op": "upd", "x": None if x is None else canon_cm(g, x), "args": new_args}
                 fn = (lambda tr=tr, x=x, a=to_impl_args(new_args): gf.update(tr, x, *a))
             elif want == "regen":
-                s = gen_sel(rng, 2, alphabet)
+                if mix and rng.random() < 0.75:
+                    # indicator, branch argument, both, or "everything outside the Cond"
+                    s = rng.choice([["str", 0], ["str", 1], ["or", ["str", 0], ["str", 1]], ["compl", ["str", 2]],
+                                    ["dict", [[0, ["all"]], [1, ["all"]]]], ["in", ["compl", ["str", 2]], ["all"]]])
+                else:
+                    s = gen_sel(rng, 2, alphabet)
                 op = {"op": "regen", "sel": s, "args": new_args}
                 fn = (lambda tr=tr, s=s, a=to_impl_args(new_args): gf.regenerate(tr, build_sel(s), *a))
             else:
